@@ -147,7 +147,7 @@ impl ValveProtocol {
         if header == 0xFE {
             // the packet is split
             let mut main_packet = SplitPacket::new(engine, protocol, &mut buffer)?;
-            let mut chunk_packets = Vec::with_capacity((main_packet.total - 1) as usize);
+            let mut chunk_packets = Vec::with_capacity(main_packet.total.saturating_sub(1) as usize);
 
             for _ in 1 .. main_packet.total {
                 let new_data = self.socket.receive(Some(buffer_size))?;
